@@ -21,6 +21,21 @@ CHECKS = {
          "Every closed ring of 3-4 free vertices on a small integer grid, every polyline of <=3 grid points, and every sequence of <=3 rings/polygons/lines over menus that include empty rings, empty polygons and degenerate rings, in 6 layouts and exact power-of-two scalings, has Area and Length computed by the real methods and compared with exact rational shoelace sums and 256-bit square-root sums under a forward error bound; additivity is checked against the part accessors and panics are violations.",
          "Bounded: <=3 parts, grid 4x4, scalings 2^-100..2^200. Area compared on closed rings only. Trusted: math/big.",
          "DESIGN.md section 2, C09"),
+ "C10": ("exploration",
+         "bounded exhaustive enumeration of point triples (integer grids, scalings, ulp-perturbation lattices) against the exact rational determinant",
+         "Every ordered triple of a 5x5/7x7 integer grid (also scaled by 2^+-330, translated by 2^40), every triple over a 27-bit coordinate set, and every perturbation by up to +-2/+-3 ulps of the six ordinates of 24 exactly collinear base triples is classified by bigxy.OrientationIndex and xy.OrientationIndex and compared with the sign of the exact rational cross product; antisymmetry and cyclic invariance are asserted on each.",
+         "Bounded: grids and lattices as listed, magnitudes within [1e-100,1e100]. Trusted: math/big.",
+         "DESIGN.md section 2, C10"),
+ "C11": ("exploration",
+         "bounded exhaustive enumeration of rings x query points against the exact even-odd rule (independent vertical-ray evaluation)",
+         "Every closed ring of 3 and 4 vertices on a 4x4 grid and 5 vertices on a 3x3 grid (thorough: 5 on 4x4), in every direction and start vertex, incl. self-intersecting and degenerate rings, is queried at every point of the doubled grid; LocatePointInRing/IsPointInRing must equal the exact even-odd classification (boundary iff on a segment). IsOnLine/PointIntersectsLine are compared with the exact on-segment predicate for all segments and 3-vertex polylines x points of the 5x5 grid and +-1 ulp perturbations of on-segment configurations.",
+         "Bounded: grids as listed (ordinates up to 2^26). Trusted: math/big, ref.Locate.",
+         "DESIGN.md section 2, C11"),
+ "C12": ("exploration",
+         "bounded exhaustive enumeration of segment pairs against exact rational intersection",
+         "Every ordered pair of non-degenerate directed segments on a 5x5/6x6 integer grid (and a scaled+translated copy) is intersected by the robust strategy and compared with the exact rational result: classification none/point/overlap, endpoint intersections bit-identical, proper crossings within 8 ulps, overlap endpoints exact; the non-robust strategy must agree on HasIntersection. +-1 ulp perturbations of T-junction / touching / collinear configurations are checked for classification.",
+         "Bounded: grids as listed. Trusted: math/big, ref.SegSeg.",
+         "DESIGN.md section 2, C12"),
  "C03": ("fault_enumeration",
          "exhaustive enumeration of reader-split and writer-fault schedules (deviation-bounded choice-sequence DFS on the real codec) plus exhaustive input corpus against an independent reference encoder",
          "Every corpus geometry (shape universe in 4 layouts + collections) in WKB, WKB-NaN and EWKB, both byte orders, six SRIDs and a special-float sweep is marshalled and compared byte for byte with an independent encoder, decoded and compared with the model (carve-outs computed), through Marshal/Unmarshal, Read/Write, hex and all SQL wrappers (incl. wrong-type and non-[]byte errors). Read is then driven over a fault-injecting reader on enc(g1)||enc(g2): every answer sequence with <=1 (quick) / <=2 (thorough) non-default answers and every chunk composition of encodings <=22 bytes; Write over a fault-injecting writer with a fault at every Write call. Each schedule must yield g1, g2, error and exact stream positions / a prefix of the reference bytes and the injected error.",
